@@ -108,10 +108,10 @@ char *dbg_memstr(char *mem, int len)
             j += 2;
             break;
         default:
-            if (isprint(mem[i]))
+            if (isprint((unsigned char)mem[i]))
                 str[j++] = mem[i];
             else {
-                sprintf(&str[j], "\\%.3o", mem[i]);
+                sprintf(&str[j], "\\%.3o", (unsigned char)mem[i]);
                 j += 4;
             }
             break;
